@@ -4,6 +4,7 @@ import (
 	"context"
 	"encoding/json"
 	"fmt"
+	"github.com/Comcast/sheens/verifrt/vtime"
 	"os"
 	"sort"
 	"strings"
@@ -35,6 +36,9 @@ func (o sOp) String() string {
 type sScenario struct {
 	Req     []sOp `json:"req"`
 	Handler []sOp `json:"handler,omitempty"` // requests injected while the first fired message is being handled
+	// Sync: the requester waits for each make / cancel to have been processed before it goes on (a client
+	// that acts on responses), and may sleep on the virtual clock
+	Sync bool `json:"sync,omitempty"`
 }
 
 type s17Case struct {
@@ -58,6 +62,7 @@ func (n *sioCouplings) Read(context.Context) (map[string]*crew.Machine, error) {
 func (n *sioCouplings) Stop(context.Context) error                             { return nil }
 
 type sioRun struct {
+	delivered   int // timer messages the loop has finished processing
 	evs         []rtimers.Ev
 	tokens      int
 	panics      []string
@@ -94,7 +99,14 @@ type request struct {
 	op    sOp
 	token int
 	due   int64
+	done  bool // the loop has finished processing this request
 }
+
+//go:norace
+func (q *request) setDone() { q.done = true }
+
+//go:norace
+func (q *request) isDone() bool { return q.done }
 
 // sioEnv: the crew currently in service (replaced by a restart).
 type sioEnv struct {
@@ -129,6 +141,12 @@ func (r *sioRun) noteFired() { r.fired++ }
 
 //go:norace
 func (r *sioRun) firedCount() int { return r.fired }
+
+//go:norace
+func (r *sioRun) noteDelivered() { r.delivered++ }
+
+//go:norace
+func (r *sioRun) deliveredCount() int { return r.delivered }
 
 func (r *sioRun) persist(js []byte) {
 	r.envMu.Lock()
@@ -190,14 +208,47 @@ func runSioTimers(sc sScenario, prefix, prefixN []int) (*sched.Exec, *sioRun) {
 		}
 		return nil
 	}
-	submit := func(op sOp) {
+	var submit func(op sOp) *request
+	submit = func(op sOp) *request {
 		e := r.env()
 		switch op.K {
 		case "make":
 			q := &request{op: op, token: r.nextToken()}
 			e.io.in <- msgFor(q)
+			return q
+		case "makebad":
+			// a request the timers machine refuses (a duration that does not parse)
+			q := &request{op: sOp{K: "cancel", Id: op.Id}}
+			e.io.in <- map[string]interface{}{"to": "timers", "makeTimer": map[string]interface{}{"in": "soon", "id": op.Id, "msg": map[string]interface{}{"to": "nobody", "token": -1.0}}, "verif": q}
+			return q
 		case "cancel":
-			e.io.in <- msgFor(&request{op: op})
+			q := &request{op: op}
+			e.io.in <- msgFor(q)
+			return q
+		case "sleep":
+			vtime.Sleep(vtime.Duration(op.D) * vtime.Millisecond)
+		case "reported":
+			// what the host has been told: the timers machine's state as last reported.  Judged only at a
+			// message boundary with nothing in flight (a timer that has gone off but whose message the
+			// loop has not yet processed cannot be in any report yet)
+			if sched.TimersFired() != r.firedCount() || r.firedCount() != r.deliveredCount() || r.isBusy() || len(e.io.in) > 0 {
+				return nil
+			}
+			var st core.State
+			var ids []string
+			if json.Unmarshal(r.stored(), &st) == nil {
+				if tm, ok := st.Bs["timers"].(map[string]interface{}); ok {
+					m := tm
+					if inner, ok := tm["Map"].(map[string]interface{}); ok {
+						m = inner
+					}
+					for id := range m {
+						ids = append(ids, id)
+					}
+				}
+			}
+			sort.Strings(ids)
+			r.rec(rtimers.Ev{Kind: "pending", IDs: ids})
 		case "pending":
 			ts := e.c.timers
 			ts.Lock()
@@ -209,20 +260,25 @@ func runSioTimers(sc sScenario, prefix, prefixN []int) (*sched.Exec, *sioRun) {
 			sort.Strings(ids)
 			r.rec(rtimers.Ev{Kind: "pending", IDs: ids})
 		case "restart":
-			// a restart between creation and due time, at a message boundary: nothing has fired,
-			// nothing is queued or being processed
-			if sched.TimersFired() > 0 || r.firedCount() > 0 || r.isBusy() || len(e.io.in) > 0 {
+			// a restart at a message boundary with nothing in flight: every timer that went off has
+			// handed over its message and the loop has finished processing it (so what a host has on
+			// disk is up to date); nothing is queued or being processed
+			if sched.TimersFired() != r.firedCount() || r.firedCount() != r.deliveredCount() || r.isBusy() || len(e.io.in) > 0 {
 				r.rec(rtimers.Ev{Kind: "restart-skipped"})
-				return
+				return nil
 			}
 			e.cancel()
 			r.rec(rtimers.Ev{Kind: "restart"})
 			r.setEnv(newSioEnv(r, r.stored()))
 		}
+		return nil
 	}
 	x.Go("requester", func() {
 		for _, op := range sc.Req {
-			submit(op)
+			q := submit(op)
+			if sc.Sync && q != nil {
+				sched.WaitUntil("request-processed", q.isDone)
+			}
 			sched.Yield("after-" + op.K)
 		}
 	})
@@ -261,6 +317,10 @@ func runSioTimers(sc sScenario, prefix, prefixN []int) (*sched.Exec, *sioRun) {
 				r.addPanic("panic: " + pm + " at " + where)
 			}
 			_ = err
+			isDelivery := false
+			if m, ok := msg.(map[string]interface{}); ok && q == nil {
+				_, isDelivery = m["token"]
+			}
 			if res != nil {
 				if ch, have := res.Changed[TimersMachine]; have && ch.State != nil {
 					if js, err := json.Marshal(ch.State); err == nil {
@@ -299,6 +359,12 @@ func runSioTimers(sc sScenario, prefix, prefixN []int) (*sched.Exec, *sioRun) {
 				case "cancel":
 					r.rec(rtimers.Ev{Kind: "cancel", Id: q.op.Id, Err: errText})
 				}
+			}
+			if isDelivery {
+				r.noteDelivered()
+			}
+			if q != nil {
+				q.setDone()
 			}
 			r.setBusy(false)
 			sched.Yield("loop-after")
@@ -352,6 +418,20 @@ func sioScenarios(maxReq int, thorough bool) []sScenario {
 			req := append(append(append([]sOp{}, pre...), restart), post...)
 			out = append(out, sScenario{Req: req}, sScenario{Req: req, Handler: []sOp{{K: "make", Id: "1", D: 10}}})
 		}
+	}
+	// a client that waits for responses, timers that have gone off, requests that are refused afterwards, what the
+	// host has been told (the reported timers state), and a restart from that
+	sl := sOp{K: "sleep", D: 20}
+	rep := sOp{K: "reported"}
+	for _, req := range [][]sOp{
+		{{K: "make", Id: "1", D: 10}, sl, rep, {K: "cancel", Id: "1"}, rep, restart, sl, {K: "pending"}},
+		{{K: "make", Id: "1", D: 10}, sl, {K: "makebad", Id: "3"}, rep, restart, sl, {K: "pending"}},
+		{{K: "make", Id: "1", D: 10}, {K: "make", Id: "2", D: 3600000}, sl, {K: "cancel", Id: "1"}, rep, restart, sl, rep, {K: "pending"}},
+		{{K: "make", Id: "1", D: 10}, sl, {K: "make", Id: "1", D: 10}, rep, sl, {K: "cancel", Id: "2"}, rep, restart, sl},
+		{{K: "make", Id: "1", D: 3600000}, {K: "cancel", Id: "1"}, {K: "makebad", Id: "1"}, rep, restart, rep, {K: "pending"}},
+		{{K: "make", Id: "1", D: 10}, {K: "make", Id: "2", D: 10}, sl, {K: "makebad", Id: "2"}, rep, restart, sl, rep},
+	} {
+		out = append(out, sScenario{Req: req, Sync: true})
 	}
 	return out
 }
